@@ -274,10 +274,14 @@ def sub_tokens(toks, pat, repl, tag, log, where, count=1):
            closing bracket of the innermost bracket opened by the pattern (the rest of a closure, an argument list, a block)."""
         c = ci
         opened = []     # token indices (in toks) of the brackets opened by the pattern and not closed yet
+        caps = []
         for d, pt in enumerate(ptoks):
             if pt.kind == "ident" and pt.text == "__" and opened:
-                # skip to the closing bracket of the innermost bracket the pattern has opened
-                c = pos_of[match_close(toks, opened[-1])]
+                # skip to the closing bracket of the innermost bracket the pattern has opened; the skipped text is `$1`, `$2`, .. of
+                # the replacement
+                c2 = pos_of[match_close(toks, opened[-1])]
+                caps.append(untok(toks[code[c][0]:code[c2][0]]).strip() if c2 > c else "")
+                c = c2
                 continue
             if c >= len(code) or code[c][1].text != pt.text:
                 return None
@@ -286,13 +290,15 @@ def sub_tokens(toks, pat, repl, tag, log, where, count=1):
             elif pt.kind == "punct" and pt.text in (")", "]", "}") and opened:
                 opened.pop()
             c += 1
+        last_caps[0] = caps
         return c
+    last_caps = [[]]
     out_ranges = []
     i = 0
     while i < len(code):
         e = match_at(i)
         if e is not None and e > i:
-            out_ranges.append((code[i][0], code[e - 1][0]))
+            out_ranges.append((code[i][0], code[e - 1][0], list(last_caps[0])))
             i = e
         else:
             i += 1
@@ -309,9 +315,12 @@ def sub_tokens(toks, pat, repl, tag, log, where, count=1):
     if n == 0:
         return toks
     out, prev = [], 0
-    for (a, b) in out_ranges:
+    for (a, b, caps_) in out_ranges:
         out.extend(toks[prev:a])
-        s = syn(repl)
+        repl_ = repl
+        for q_, ctext_ in enumerate(caps_):
+            repl_ = repl_.replace("$%d" % (q_ + 1), ctext_)
+        s = syn(repl_)
         if s:
             orig = [x.start for x in toks[a:b + 1] if x.start >= 0]
             s[0].start = orig[0] if orig else -1
